@@ -341,3 +341,13 @@ fn test_elsewhere_declared_value_in_module() {
         }
     );
 }
+
+/// Verification hook: offset reached by `skip_ws_and_comments` on `src` (see `crate::verif_hooks`).
+#[cfg(rasn_compiler_verif)]
+pub(crate) fn verif_skip_trivia(src: &str) -> Option<usize> {
+    use nom::combinator::success;
+    common::skip_ws_and_comments(success::<Input<'_>, (), error::ErrorTree<'_>>(()))
+        .parse(Input::from(src))
+        .ok()
+        .map(|(rest, _)| src.len() - rest.len())
+}
